@@ -430,15 +430,35 @@ def bounded(rep, tier):
             n_eval += 1
             if list(numpy.asarray(got, dtype=float)) != [float(v) for v in _py_group("count", None, list(gid))] and len(bad) < 5:
                 bad.append({"kernel": "grouped_count", "group_id": list(gid), "got": numpy.asarray(got).tolist()})
-    # datetime max / min (bounded only)
-    d = numpy.array(["2001-03-04", "1999-12-31", "2010-01-01", "1999-12-31"], dtype="datetime64[ns]")
-    for g in itertools.product([0, 4], repeat=4):
-        for kind in ("max", "min"):
-            got = getattr(an, f"grouped_{kind}")(d, numpy.array(g))
-            exp = _py_group(kind, list(d), list(g))
+    # datetime max / min (bounded only): dates on both sides of the epoch
+    for dates in (["2001-03-04", "1999-12-31", "2010-01-01", "1999-12-31"], ["1955-03-04", "1949-12-31", "2010-01-01", "1949-12-31"], ["1931-05-06", "1969-12-31", "1926-01-01", "1944-07-09"]):
+        d = numpy.array(dates, dtype="datetime64[ns]")
+        for g in itertools.product([0, 4], repeat=4):
+            for kind in ("max", "min"):
+                got = getattr(an, f"grouped_{kind}")(d, numpy.array(g))
+                exp = _py_group(kind, list(d), list(g))
+                n_eval += 1
+                if list(got) != exp and len(bad) < 5:
+                    bad.append({"kernel": f"grouped_{kind}[datetime]", "column": dates, "group_id": list(g), "got": [str(x) for x in got], "expected": [str(x) for x in exp]})
+    # large, sparse group ids in unsorted row orders (survey-style identifiers)
+    big = [1000003, 7, 1000001]
+    colf = numpy.array([1.5, -2.0, 0.25, 3.0, 8.0])
+    for n in (3, 4):
+        for gid in itertools.product(big, repeat=n):
+            if len(set(gid)) < 2:
+                continue
+            g = numpy.array(gid)
+            distinct += 1
+            for kind in ("sum", "max", "min", "mean"):
+                got = getattr(an, f"grouped_{kind}")(colf[:n], g)
+                exp = _py_group(kind, colf[:n].tolist(), list(gid))
+                n_eval += 1
+                if not numpy.allclose(numpy.asarray(got, dtype=float), numpy.asarray(exp, dtype=float)) and len(bad) < 5:
+                    bad.append({"kernel": f"grouped_{kind}", "column": colf[:n].tolist(), "group_id": list(gid), "got": numpy.asarray(got).tolist(), "expected": exp})
+            got = an.grouped_count(g)
             n_eval += 1
-            if list(got) != exp and len(bad) < 5:
-                bad.append({"kernel": f"grouped_{kind}[datetime]", "group_id": list(g), "got": [str(x) for x in got]})
+            if list(numpy.asarray(got, dtype=float)) != [float(v) for v in _py_group("count", None, list(gid))] and len(bad) < 5:
+                bad.append({"kernel": "grouped_count", "group_id": list(gid), "got": numpy.asarray(got).tolist()})
     # sum_by_p_id and join_numpy against dict-based definitions, all pointer patterns
     ids = [7, 3, 12, 0, 5]
     for n in range(1, nmax + 1):
@@ -503,7 +523,7 @@ def bounded(rep, tier):
         n_eval += 1
         if raised != should and len(bad) < 5:
             bad.append({"kernel": "join_numpy", "foreign_key": fk, "primary_key": pk, "got": "raised" if raised else "returned", "expected": "ValueError" if should else "a result"})
-    rep.bounded["kernels_vs_definition"] = {"evaluations": n_eval, "distinct_nontrivial": distinct, "rule": f"all group-id vectors over {{0,4,9}} and all columns over 3-value domains for <= {nmax} rows (sparse, unsorted ids) for the seven grouped kernels; datetime max/min on 16 groupings; sum_by_p_id and join_numpy for all pointer vectors over (-1,-5,existing ids) x row orders; isolation of other groups / persons from a NaN, inf or 1e300 in one row (bit for bit); distinct = id/pointer vectors", "failures": bad[:5], "exhaustive": True}
+    rep.bounded["kernels_vs_definition"] = {"evaluations": n_eval, "distinct_nontrivial": distinct, "rule": f"all group-id vectors over {{0,4,9}} and all columns over 3-value domains for <= {nmax} rows (sparse, unsorted ids) for the seven grouped kernels; datetime max/min on 16 groupings x 3 date sets (both sides of 1970); large sparse ids (1000003, 7, 1000001) in all row orders up to 4 rows; sum_by_p_id and join_numpy for all pointer vectors over (-1,-5,existing ids) x row orders; isolation of other groups / persons from a NaN, inf or 1e300 in one row (bit for bit); distinct = id/pointer vectors", "failures": bad[:5], "exhaustive": True}
     rep.functions.add("src/_gettsim/shared.py:272 join_numpy (also bounded exhaustive)")
     for b in bad:
         rep.violation(f"{b['kernel']}:definition-mismatch", f"{b['kernel']} returns {b.get('got')} on {{k: v for k, v in b.items() if k not in ('got', 'expected')}}, definition gives {b.get('expected')}".replace("{k: v for k, v in b.items() if k not in ('got', 'expected')}", str({k: v for k, v in b.items() if k not in ("got", "expected", "kernel")})), b, True)
